@@ -159,6 +159,12 @@ func (t *Object) Hash() uint64 {
 	endIndex := len(keys) - 1
 
 	for idx, key := range keys {
+		// the length goes in front of the key: a key may contain ':' and ',',
+		// and without it two different objects can produce the same bytes
+		keyLen := make([]byte, 8)
+		binary.LittleEndian.PutUint64(keyLen, uint64(len(key)))
+
+		h.Write(keyLen)
 		h.Write([]byte(key))
 		h.Write([]byte(":"))
 
